@@ -92,6 +92,7 @@ def check(program: Program, run: Run) -> None:
     run.rule("R1 alias discipline per Term class: gated (on: exactly once, last; off: never)")
     run.rule("R2 operand slots: ctx.with_alias is Const False at every nested get_sql of a composite term")
     run.rule("R3 defining slots (_selects, _from, Join.item, _returns, _distinct_on): ctx.with_alias is Const True")
+    run.rule("R5 (inherited from C08/R1c) the dialect's GROUP BY / ORDER BY alias policy reaches every entry path, top-level set operations included")
     run.rule("R4 alias references only under membership in the select list's aliases; fallback renders with alias off")
     run.assumptions += ["class-hierarchy resolution; user subclasses of Term are outside the repository"]
     terms = term_classes(program)
@@ -235,3 +236,20 @@ def check(program: Program, run: Run) -> None:
                                 where=f"{part.src[2]}:{part.src[1]}", rule="R4")
         if not alias_holes:
             raise AnalysisError(f"anchor vanished: no alias reference found in {fq}")
+
+    # ---- R5: whether GROUP BY / ORDER BY may name a select alias is a per-dialect context field; a statement entered
+    # through str() of a set operation starts from the default context (C08/R1c decides which fields arrive)
+    from ..report import Run as _Run
+    from . import c08
+    sub = _Run("C08", run.tier)
+    c08.check(program, sub)
+    n5 = 0
+    for o in sub.obligations:
+        if o.rule.startswith("C08/R1c") and o.subject.rsplit(":", 1)[-1] in ("groupby_alias", "orderby_alias"):
+            n5 += 1
+            run.ob("C12/R5 (inherited from C08/R1c) alias-reference policy of the dialect reaches operands of a top-level set operation", o.subject, o.ok, o.detail, o.where)
+    for fd in sub.findings:
+        if not fd.info and fd.key.startswith("C08/entry-context-drops:") and ("groupby_alias" in fd.key or "orderby_alias" in fd.key):
+            run.finding("C12/alias-reference-policy:" + fd.key.split(":", 1)[1], "GROUP BY/ORDER BY names a select alias in a dialect that forbids it: " + fd.what, where=fd.where, rule="R5 (inherited from C08/R1c)")
+    if n5 < 12:
+        raise AnalysisError(f"instance count below floor: alias policy cells {n5}")
